@@ -12,13 +12,232 @@ open SpsdkVerif.Generated.IvtConsts
 
 variable {co : CryptoOps} {env : Env} {c : Cls} {cfg : Cfg} {signer : Signer}
 
+
+/-! ### inversion of the ROM's monadic checks -/
+
+theorem romneg_bind {α β : Type} {x : Spec.MbiRom.Rom α} {f : α → Spec.MbiRom.Rom β} {b : β} (h : (x >>= f) = .ok b) :
+    ∃ r, x = .ok r ∧ f r = .ok b := by
+  cases x with
+  | error e => simp [bind, Except.bind] at h
+  | ok r => exact ⟨r, rfl, h⟩
+
+theorem romneg_need {β : Type} {cnd : Bool} {w : String} {f : Unit → Spec.MbiRom.Rom β} {b : β}
+    (h : (Spec.MbiRom.need cnd w >>= f) = .ok b) : cnd = true ∧ f () = .ok b := by
+  cases cnd with
+  | false => simp [Spec.MbiRom.need, bind, Except.bind] at h
+  | true => exact ⟨rfl, h⟩
+
+/-- an accepted image of the encrypted type went through `romHmac` and `romEncrypted` -/
+theorem romneg_romCheck_inv (renv : Spec.MbiRom.RomEnv) (img : Bytes) (a : Spec.MbiRom.Accepted)
+    (ht : Spec.MbiRom.rd32 img Spec.MbiRom.offFlags &&& Spec.MbiRom.maskImageType = 3)
+    (h : Spec.MbiRom.romCheck co renv img = .ok a) :
+    ∃ body strip ks, Spec.MbiRom.romHmac co renv img = .ok (body, strip, ks)
+      ∧ Spec.MbiRom.romEncrypted co renv body strip ks = .ok a := by
+  unfold Spec.MbiRom.romCheck at h
+  obtain ⟨_, h⟩ := romneg_need h
+  simp only [ht] at h
+  obtain ⟨_, h⟩ := romneg_need h
+  obtain ⟨_, h⟩ := romneg_need h
+  have e0 : ((3 : Nat) == Spec.MbiRom.typePlain) = false := by decide
+  have e1 : ((3 : Nat) == Spec.MbiRom.typeCrcRam) = false := by decide
+  have e2 : ((3 : Nat) == Spec.MbiRom.typeCrcXip) = false := by decide
+  have e3 : ((3 : Nat) == Spec.MbiRom.typeSignedRam) = false := by decide
+  have e4 : ((3 : Nat) == Spec.MbiRom.typeSignedXip) = false := by decide
+  have e5 : ((3 : Nat) == Spec.MbiRom.typeSignedXipNxp) = false := by decide
+  have e6 : ((3 : Nat) == Spec.MbiRom.typeEncryptedRam) = true := by decide
+  simp only [e0, e1, e2, e3, e4, e5, e6, Bool.false_eq_true, or_self, if_false, if_true] at h
+  obtain ⟨_, h⟩ := romneg_need h
+  obtain ⟨⟨body, strip, ks⟩, h1, h2⟩ := romneg_bind h
+  exact ⟨body, strip, ks, h1, h2⟩
+
+theorem romneg_romHmac_inv (renv : Spec.MbiRom.RomEnv) (img body : Bytes) (strip : Nat) (ks : Bool) (k : Bytes)
+    (huk : renv.userKey = some k) (h : Spec.MbiRom.romHmac co renv img = .ok (body, strip, ks)) :
+    ks = (Spec.MbiRom.rd32 img Spec.MbiRom.offFlags &&& Spec.MbiRom.flagKeyStore != 0)
+    ∧ strip = Spec.MbiRom.hmacSize + (if ks then Spec.MbiRom.keyStoreSize else 0)
+    ∧ Spec.MbiRom.sub img Spec.MbiRom.hmacOffset (Spec.MbiRom.hmacOffset + Spec.MbiRom.hmacSize)
+        = hmac co .sha256 (ecbEnc co k Spec.MbiRom.hmacKeyDerivation) (img.take Spec.MbiRom.hmacOffset)
+    ∧ body = img.take Spec.MbiRom.hmacOffset ++ img.drop (Spec.MbiRom.hmacOffset + strip) := by
+  unfold Spec.MbiRom.romHmac at h
+  obtain ⟨_, h⟩ := romneg_need h
+  simp only [huk] at h
+  obtain ⟨_, h⟩ := romneg_need h
+  obtain ⟨h3, h⟩ := romneg_need h
+  have h := Except.ok.inj h
+  simp only [Prod.mk.injEq] at h
+  obtain ⟨hb, hs, hk⟩ := h
+  subst hk
+  subst hs
+  exact ⟨rfl, rfl, by simpa using h3, hb.symm⟩
+
+theorem romneg_romEncrypted_inv (renv : Spec.MbiRom.RomEnv) (body : Bytes) (strip : Nat) (ks : Bool) (a : Spec.MbiRom.Accepted)
+    (h : Spec.MbiRom.romEncrypted co renv body strip ks = .ok a) :
+    ∃ ci last, Spec.MbiRom.romCertV1 co renv body (Spec.MbiRom.rd32 body Spec.MbiRom.offCrcOrCert) = .ok ci
+      ∧ ci.certs.getLast? = some last
+      ∧ a.obligations = [.x509Chain ci.certs ci.table, .rsaByCert last ci.imageLength] := by
+  unfold Spec.MbiRom.romEncrypted at h
+  obtain ⟨_, h⟩ := romneg_need h
+  obtain ⟨ci, hci, h⟩ := romneg_bind h
+  obtain ⟨_, h⟩ := romneg_need h
+  refine ⟨ci, ?_⟩
+  split at h
+  · rename_i k last _ hl
+    obtain ⟨_, h⟩ := romneg_need h
+    have h := Except.ok.inj h
+    subst h
+    exact ⟨last, hci, hl, rfl⟩
+  · exact absurd h (by simp)
+
+theorem romneg_certEntries_bound (body : Bytes) :
+    ∀ (n off limit : Nat) (l : List (Nat × Nat)) (e : Nat), Spec.MbiRom.certEntries body n off limit = .ok (l, e) →
+      ∀ q ∈ l, q.1 + q.2 ≤ limit := by
+  intro n
+  induction n with
+  | zero =>
+    intro off limit l e h q hq
+    simp only [Spec.MbiRom.certEntries] at h
+    have h := Except.ok.inj h
+    simp only [Prod.mk.injEq] at h
+    rw [← h.1] at hq
+    simp at hq
+  | succ n ih =>
+    intro off limit l e h q hq
+    unfold Spec.MbiRom.certEntries at h
+    obtain ⟨_, h⟩ := romneg_need h
+    obtain ⟨h2, h⟩ := romneg_need h
+    obtain ⟨⟨rest, e'⟩, hr, h⟩ := romneg_bind h
+    have h := Except.ok.inj h
+    simp only [Prod.mk.injEq] at h
+    rw [← h.1] at hq
+    rcases List.mem_cons.mp hq with rfl | hq
+    · simp only [decide_eq_true_eq] at h2
+      simp only
+      omega
+    · exact ih _ _ _ _ hr q hq
+
+theorem romneg_romCertV1_bound (renv : Spec.MbiRom.RomEnv) (body : Bytes) (off : Nat) (ci : Spec.MbiRom.CertV1Info)
+    (h : Spec.MbiRom.romCertV1 co renv body off = .ok ci) : ∀ q ∈ ci.certs, q.1 + q.2 ≤ body.length := by
+  unfold Spec.MbiRom.romCertV1 at h
+  obtain ⟨_, h⟩ := romneg_need h
+  obtain ⟨_, h⟩ := romneg_need h
+  obtain ⟨_, h⟩ := romneg_need h
+  obtain ⟨_, h⟩ := romneg_need h
+  obtain ⟨_, h⟩ := romneg_need h
+  obtain ⟨⟨certs, tblEnd⟩, hce, h⟩ := romneg_bind h
+  obtain ⟨h1, h⟩ := romneg_need h
+  obtain ⟨h2, h⟩ := romneg_need h
+  obtain ⟨_, h⟩ := romneg_need h
+  have h := Except.ok.inj h
+  subst h
+  intro q hq
+  have := romneg_certEntries_bound body _ _ _ _ _ hce q hq
+  simp only [beq_iff_eq, decide_eq_true_eq] at h1 h2
+  simp only at hq ⊢
+  omega
+
+
+/-! ### a changed byte -/
+
+theorem romneg_rd32_set (l : Bytes) (i off : Nat) (y : UInt8) (h : i < off ∨ off + 4 ≤ i) :
+    Spec.MbiRom.rd32 (l.set i y) off = Spec.MbiRom.rd32 l off := by
+  unfold Spec.MbiRom.rd32
+  rcases h with h | h
+  · rw [List.drop_set_of_lt h]
+  · rw [List.drop_set, if_neg (by omega), List.take_set_of_le (by omega)]
+
+theorem romneg_slice_set (l : Bytes) (i a b : Nat) (y : UInt8) (h : i < a ∨ b ≤ i) :
+    slice (l.set i y) a b = slice l a b := by
+  unfold slice
+  rcases h with h | h
+  · rw [List.take_set, List.drop_set_of_lt h]
+  · rw [List.take_set_of_le h]
+
+theorem romneg_set_ne (l : Bytes) (i : Nat) (y : UInt8) (hi : i < l.length) (h : l[i]? ≠ some y) : l ≠ l.set i y := by
+  intro e
+  apply h
+  rw [e]
+  exact List.getElem?_set_self hi
+
+theorem romneg_slice_mid (X C Y : Bytes) (a b : Nat) (hb : b ≤ C.length) :
+    slice (X ++ C ++ Y) (X.length + a) (X.length + b) = slice C a b := by
+  unfold slice
+  rw [List.append_assoc, List.take_append, List.take_of_length_le (by omega), Nat.add_sub_cancel_left,
+    List.drop_append, List.drop_of_length_le (by omega), List.nil_append, Nat.add_sub_cancel_left,
+    List.take_append_of_le_length hb]
+
+
+theorem romneg_slice_mid' (X C Y : Bytes) (n a b : Nat) (hn : X.length = n) (hb : b ≤ C.length) :
+    slice (X ++ C ++ Y) (n + a) (n + b) = slice C a b := by
+  subst hn; exact romneg_slice_mid X C Y a b hb
+
+
+/-! ### the two reductions -/
+
+theorem romneg_type3 (hc : EncCls c) (hk : EncCfg c cfg) (hf : c.family = some .encrypted) (ht : signedTypeOk c = true) :
+    flagsOf c cfg &&& Spec.MbiRom.maskImageType = 3 := by
+  have hty : c.imageType = 3 := by
+    unfold signedTypeOk at ht
+    simpa [hc.hsign, hf] using ht
+  have := romenc_imageType hc hk
+  rw [hty] at this
+  exact this
+
 theorem tamper_rejected_encrypted_header (h : Hyp co env c cfg signer) (hf : c.family = some .encrypted) (ht : signedTypeOk c = true)
     (rkth : Bytes) (certs : List (Nat × Nat)) (table : List Bytes)
     (hrom : RomCertV1OK co (romEnvOf c rkth cfg.hmacKey) cfg.cert certs table) :
     ∃ e, exportImage co c cfg signer = .ok e
       ∧ ∀ (i : Nat) (y : UInt8), i < hmacOffset → ¬ layoutWord i → e[i]? ≠ some y →
           ∀ a, Spec.MbiRom.romCheck co (romEnvOf c rkth cfg.hmacKey) (e.set i y) = .ok a → Break co := by
-  sorry
+  have hc := encCls h.hcls hf
+  have hk := encCfg hc h.hcfg
+  have hn := encLens h.hlaws hc hk signer h.hsig
+  obtain ⟨k, hk1, _⟩ := hk.hhmac
+  have huk : (romEnvOf c rkth cfg.hmacKey).userKey = some k := hk1
+  refine ⟨_, encrypted_export h.hlaws hc hk signer, ?_⟩
+  intro i y hi hlw hne a H
+  have hlw' : i < 36 ∨ 36 + 4 ≤ i := by
+    unfold layoutWord at hlw
+    simp only [hmacOffset] at hi
+    omega
+  have hflags : Spec.MbiRom.rd32 ((encImg co c cfg signer).set i y) Spec.MbiRom.offFlags = flagsOf c cfg := by
+    rw [show Spec.MbiRom.offFlags = 36 from rfl, romneg_rd32_set _ _ _ _ hlw']
+    exact romenc_flags h.hlaws hc hk signer
+  obtain ⟨body, strip, ks, hH, _⟩ := romneg_romCheck_inv _ _ _ (by rw [hflags]; exact romneg_type3 hc hk hf ht) H
+  obtain ⟨_, _, hm', _⟩ := romneg_romHmac_inv _ _ _ _ _ k huk hH
+  obtain ⟨_, _, hm, _⟩ := romneg_romHmac_inv _ _ _ _ _ k huk (romenc_romHmac h.hlaws hc hk hn rkth)
+  rw [romenc_sub, romneg_slice_set _ _ _ _ _ (Or.inl (by simpa [Spec.MbiRom.hmacOffset, hmacOffset] using hi)),
+    ← romenc_sub, hm] at hm'
+  have hlen : i < (encImg co c cfg signer).length := by
+    have := encImg_len hn
+    have := hn.hL
+    simp only [hmacOffset] at *
+    omega
+  refine Break.hmacForgery .sha256 _ _ _ ?_ hm'
+  rw [List.take_set]
+  apply romneg_set_ne
+  · rw [List.length_take]; simp only [Spec.MbiRom.hmacOffset, hmacOffset] at *; omega
+  · rw [List.getElem?_take_of_lt (by simpa [Spec.MbiRom.hmacOffset, hmacOffset] using hi)]
+    exact hne
+
+
+/-- the certificates the ROM finds lie inside the block -/
+theorem romneg_cert_inside (hk : EncCfg c cfg) (renv : Spec.MbiRom.RomEnv) (certs : List (Nat × Nat)) (table : List Bytes)
+    (hrom : RomCertV1OK co renv cfg.cert certs table) : ∀ p ∈ certs, p.1 + p.2 ≤ cfg.cert.length := by
+  intro p hp
+  have hl : (certSetImageLength cfg.cert 0).length = cfg.cert.length := by
+    unfold certSetImageLength
+    apply setAt_length
+    have := hk.hcertLen
+    simp only [le32_length, certImageLengthOffset, certHeaderSize] at *
+    omega
+  have hat : certAt (certSetImageLength cfg.cert 0) (certSetImageLength cfg.cert 0) 0 := by
+    unfold certAt
+    rw [romenc_sub]
+    unfold slice
+    simp
+  obtain ⟨ci, hci, hcerts, _⟩ := hrom.2 _ 0 0 hat (by decide)
+  have := romneg_romCertV1_bound _ _ _ _ hci (0 + p.1, p.2) (by rw [hcerts]; exact List.mem_map.mpr ⟨p, hp, rfl⟩)
+  rw [hl] at this
+  simpa using this
 
 theorem tamper_rejected_encrypted (h : Hyp co env c cfg signer) (hf : c.family = some .encrypted) (ht : signedTypeOk c = true)
     (rkth : Bytes) (certs : List (Nat × Nat)) (table : List Bytes)
@@ -32,6 +251,125 @@ theorem tamper_rejected_encrypted (h : Hyp co env c cfg signer) (hf : c.family =
            hmacOffset + strip ≤ i ∧ i - strip < appLen c cfg) → e[i]? ≠ some y →
           ∀ a, Spec.MbiRom.romCheck co (romEnvOf c rkth cfg.hmacKey) (e.set i y) = .ok a →
             (∀ ob ∈ a.obligations, holdsRsa co alg certPub (encBodyOf cfg (e.set i y)) ob) → Break co := by
-  sorry
+  have hc := encCls h.hcls hf
+  have hk := encCfg hc h.hcfg
+  have hn := encLens h.hlaws hc hk signer h.hsig
+  obtain ⟨k, hk1, _⟩ := hk.hhmac
+  have huk : (romEnvOf c rkth cfg.hmacKey).userKey = some k := hk1
+  refine ⟨_, encrypted_export h.hlaws hc hk signer, ?_⟩
+  intro i y hi hne a H hob
+  have hS : hmacSize + (cfg.keyStore.getD []).length = hmacSize + encKsLen cfg := rfl
+  simp only [hS] at hi
+  obtain ⟨hi1, hi2⟩ := hi
+  have hL := hn.hL
+  have hpl := romenc_pe_length h.hlaws hc hk
+  -- the body of the changed image
+  have hB : encBodyOf cfg ((encImg co c cfg signer).set i y)
+      = (encPe co c cfg ++ signer (encPe co c cfg)).set (i - (hmacSize + encKsLen cfg)) y := by
+    have e0 : hmacOffset + hmacSize + (cfg.keyStore.getD []).length = hmacOffset + hmacSize + encKsLen cfg := rfl
+    have hpe : encPe co c cfg ++ signer (encPe co c cfg) = encIvtOf co c cfg ++ (encBody co c cfg ++ signer (encPe co c cfg)) := by
+      unfold encPe; rw [List.append_assoc]
+    have hl : ((encImg co c cfg signer).set i y).take hmacOffset = encIvtOf co c cfg := by
+      rw [List.take_set_of_le (by omega), encImg_take_ivt hn]
+    have hd : ((encImg co c cfg signer).set i y).drop (hmacOffset + hmacSize + encKsLen cfg)
+        = (encBody co c cfg ++ signer (encPe co c cfg)).set (i - (hmacOffset + hmacSize + encKsLen cfg)) y := by
+      rw [List.drop_set, if_neg (by omega), encImg_drop_body hn]
+    have hr : (encIvtOf co c cfg ++ (encBody co c cfg ++ signer (encPe co c cfg))).set (i - (hmacSize + encKsLen cfg)) y
+        = encIvtOf co c cfg ++ (encBody co c cfg ++ signer (encPe co c cfg)).set
+            (i - (hmacSize + encKsLen cfg) - hmacOffset) y := by
+      rw [List.set_append_right _ _ (by rw [hn.hivt]; omega), hn.hivt]
+    have hidx : i - (hmacOffset + hmacSize + encKsLen cfg) = i - (hmacSize + encKsLen cfg) - hmacOffset := by omega
+    unfold encBodyOf
+    rw [hl, e0, hd, hpe, hr, hidx]
+  generalize hj : i - (hmacSize + encKsLen cfg) = j at hB hi2
+  have hj64 : hmacOffset ≤ j := by omega
+  -- the byte really changes
+  have hbyte : (encPe co c cfg)[j]? ≠ some y := by
+    intro hq
+    apply hne
+    have e1 : encImg co c cfg signer = (encIvtOf co c cfg ++ computeHmac co cfg (encIvtOf co c cfg)
+        ++ (cfg.keyStore.getD [])) ++ (encBody co c cfg ++ signer (encPe co c cfg)) := by
+      unfold encImg; simp only [List.append_assoc]
+    have l1 : (encIvtOf co c cfg ++ computeHmac co cfg (encIvtOf co c cfg) ++ (cfg.keyStore.getD [])).length
+        = hmacOffset + hmacSize + encKsLen cfg := by
+      simp only [List.length_append, hn.hivt, hn.hmac, hn.hks]
+    have hbl := encBody_length h.hlaws hc hk
+    have hjb : j - hmacOffset < (encBody co c cfg).length := by
+      rw [hbl]; omega
+    rw [e1, List.getElem?_append_right (by rw [l1]; omega), l1, List.getElem?_append_left (by omega)]
+    unfold encPe at hq
+    rw [List.getElem?_append_right (by rw [hn.hivt]; exact hj64), hn.hivt] at hq
+    have hidx : i - (hmacOffset + hmacSize + encKsLen cfg) = j - hmacOffset := by omega
+    rw [← hq, hidx]
+  -- the ROM's path
+  have hflags : Spec.MbiRom.rd32 ((encImg co c cfg signer).set i y) Spec.MbiRom.offFlags = flagsOf c cfg := by
+    rw [show Spec.MbiRom.offFlags = 36 from rfl, romneg_rd32_set _ _ _ _ (Or.inr (by simp only [hmacOffset] at hi1; omega))]
+    exact romenc_flags h.hlaws hc hk signer
+  obtain ⟨body, strip, ks, hH, hE⟩ := romneg_romCheck_inv _ _ _ (by rw [hflags]; exact romneg_type3 hc hk hf ht) H
+  obtain ⟨hks, hstrip, _, hbody⟩ := romneg_romHmac_inv _ _ _ _ _ k huk hH
+  rw [hflags, romenc_ksflag hc hk] at hks
+  have hstrip' : strip = hmacSize + encKsLen cfg := by
+    rw [hstrip, hks, encKsLen_eq hk]; rfl
+  have hbody' : body = (encPe co c cfg ++ signer (encPe co c cfg)).set j y := by
+    rw [hbody, hstrip', ← hB]
+    unfold encBodyOf
+    rw [show Spec.MbiRom.hmacOffset = hmacOffset from rfl, ← Nat.add_assoc]
+    rfl
+  rw [hbody'] at hE
+  clear hbody' hbody hH
+  obtain ⟨ci, last, hci, hlast, hobl⟩ := romneg_romEncrypted_inv _ _ _ _ _ hE
+  have hoff : Spec.MbiRom.rd32 ((encPe co c cfg ++ signer (encPe co c cfg)).set j y) Spec.MbiRom.offCrcOrCert = appLen c cfg := by
+    rw [show Spec.MbiRom.offCrcOrCert = 40 from rfl, romneg_rd32_set _ _ _ _ (Or.inr (by simp only [hmacOffset] at hj64; omega))]
+    exact (romenc_body_words h.hlaws hc hk _).2.2.1
+  rw [hoff] at hci
+  -- the certificate block is untouched
+  have hel := encEnc_length h.hlaws hc hk
+  have hivl := hk.hctr
+  have hil : (encEnc co c cfg).length + cfg.cert.length + encIvtCopySize + cfg.ctrIv.length = (encPe co c cfg).length := by
+    simp only [encIvtCopySize, ctrInitVectorSize] at *; omega
+  have hilt : (encPe co c cfg).length < 2 ^ 32 := by
+    have h1 := encImgLen_lt hc hk
+    unfold encImgLen at h1
+    rw [encrypted_totalLen hc hk] at h1
+    simp only [Int.toNat_natCast] at h1
+    have h2 := encrypted_appLen hc hk
+    simp only [hmacSize, encIvtCopySize, encIvSize, ctrInitVectorSize] at *
+    omega
+  have hcertIn : certSetImageLength cfg.cert (encPe co c cfg).length = certInImage c cfg := by
+    rw [← hil]; exact encrypted_certInImage h.hlaws hc hk
+  have hat : certAt ((encPe co c cfg ++ signer (encPe co c cfg)).set j y)
+      (certSetImageLength cfg.cert (encPe co c cfg).length) (appLen c cfg) := by
+    unfold certAt
+    rw [hcertIn, romenc_sub, hn.hcert, romneg_slice_set _ _ _ _ _ (Or.inl hi2)]
+    exact romenc_cert hn _
+  obtain ⟨ci', hci', hcerts, _, himl, _⟩ := hrom.2 _ _ _ hat hilt
+  have hcc : ci = ci' := Except.ok.inj (hci.symm.trans hci')
+  subst hcc
+  rw [hcerts, List.getLast?_map] at hlast
+  obtain ⟨p, hp, hlp⟩ := Option.map_eq_some_iff.mp hlast
+  have hpin := romneg_cert_inside hk _ _ _ hrom p (List.mem_of_getLast? hp)
+  -- the RSA obligation
+  have hv := hob (.rsaByCert last ci.imageLength) (by rw [hobl]; simp)
+  rw [hB, himl, ← hlp] at hv
+  simp only [holdsRsa] at hv
+  have hslice : Spec.MbiRom.sub ((encPe co c cfg ++ signer (encPe co c cfg)).set j y) (appLen c cfg + p.1)
+      (appLen c cfg + p.1 + p.2) = slice (certInImage c cfg) p.1 (p.1 + p.2) := by
+    rw [romenc_sub, romneg_slice_set _ _ _ _ _ (Or.inl (by omega))]
+    have hsplit : encPe co c cfg ++ signer (encPe co c cfg)
+        = (encIvtOf co c cfg ++ slice (encEnc co c cfg) hmacOffset (appLen c cfg)) ++ certInImage c cfg
+          ++ ((encEnc co c cfg).take encIvtCopySize ++ cfg.ctrIv ++ (encEnc co c cfg).drop (appLen c cfg)
+            ++ signer (encPe co c cfg)) := by
+      unfold encPe encBody; simp only [List.append_assoc]
+    have hX : (encIvtOf co c cfg ++ slice (encEnc co c cfg) hmacOffset (appLen c cfg)).length = appLen c cfg := by
+      simp only [List.length_append, hn.hivt, hn.hmid]; omega
+    rw [hsplit, Nat.add_assoc, romneg_slice_mid' _ _ _ _ _ _ hX (by rw [hn.hcert]; exact hpin)]
+  have htake : ((encPe co c cfg ++ signer (encPe co c cfg)).set j y).take (encPe co c cfg).length
+      = (encPe co c cfg).set j y := by
+    rw [List.take_set, List.take_left]
+  have hdrop : ((encPe co c cfg ++ signer (encPe co c cfg)).set j y).drop (encPe co c cfg).length
+      = co.sign alg sk (encPe co c cfg) r := by
+    rw [List.drop_set_of_lt (by omega), List.drop_left, hsigner]
+  rw [hslice, htake, hdrop, hpub p hp] at hv
+  exact Break.sigForgery alg sk _ _ r (romneg_set_ne _ _ _ (by omega) hbyte) hv
 
 end SpsdkVerif.Mbi
